@@ -20,9 +20,11 @@ fvars == <<vars, limbo>>
 
 FailedReply(op) == R(op, "failed", 0, <<>>)
 
+(* A failed receive of a blob that is present and settled (acknowledged earlier, not in limbo) is a failed no-op:
+   the earlier acknowledgement stands, so the blob stays settled - a rebuild may not drop it. *)
 FailedReceive(b) ==
   /\ present' \in {present, present \cup {b}}
-  /\ limbo' = limbo \cup {b}
+  /\ limbo' = IF b \in present /\ b \notin limbo THEN limbo ELSE limbo \cup {b}
   /\ reply' = FailedReply("receive")
   /\ UNCHANGED <<size, caps>>
 
